@@ -209,6 +209,10 @@ static int wait_hook (io_event_t *ev, int max, struct timeval *tmo) {
     ip = cur_ip ();
     if (!ip) { R->dropped = 1; env_shutdown (); ph = 9; return 0; }
     check_inv ("cycle", 0);
+    if (R->cycles > 8L * P->n + 4096) {       /* backstop: a correct driver consumes at least one byte or one command per cycle */
+      failp ("C13:input-never-consumed", "after %d cycles %zu of %d bytes are still unread", R->cycles, C ? (size_t) P->n - C->in_pos : 0, P->n);
+      env_shutdown (); ph = 9; return 0;
+    }
     /* the driver itself asked for another console event (post_completion): the real eventfd would be readable at once */
     if (P->port == PT_CONSOLE && env_posted_completions && R->cycles < 200000) { env_posted_completions = 0; return env_ev_console (ev, 0); }
     if (P->mode == M_DRAIN && (ip->iflags & CMD_IN_BUF) && idle < P->n + 8) { idle++; return 0; }
